@@ -201,6 +201,23 @@ class Pattern:
                         return self._m(sub, 0, s, p, g, again)
                     return None
             return rep(0, pos, groups)
+        if op in (_C.ASSERT, _C.ASSERT_NOT):
+            direction, sub = av
+            sub_seq = list(sub)
+            if direction < 0:
+                lo, hi = sub.getwidth()
+                if lo != hi:
+                    raise Escape('variable-width look-behind')
+                start = pos - lo
+                if start < 0:
+                    found = None
+                else:
+                    found = self._m(sub_seq, 0, s, start, groups, lambda p, g: (p, g) if p == pos else None)
+            else:
+                found = self._m(sub_seq, 0, s, pos, groups, lambda p, g: (p, g))
+            if op is _C.ASSERT:
+                return nxt(pos, found[1]) if found is not None else None
+            return nxt(pos, groups) if found is None else None
         raise Escape('regular-expression construct %s is not supported on symbolic strings' % op)
 
     def _match_at(self, s, pos, full=False):
